@@ -21,7 +21,13 @@ def rows(quick, fault, drop):
     if fault:
         R += [("w-panic0", "lzma2", 2, ["F", "F", "X"], dict(panic=[0]), "rand"),
               ("w-panic1-flush", "lzip", 2, ["F", "F", "f", "X"], dict(panic=[1]), "rand")]
-        R += [("w-valid-small", "lzma2", 2, ["F", "P", "X"], {}, "tour")]
+        # every call returns on valid input too: exact multiples of the unit size, flush then finish, backlog at finish
+        R += [("w-valid-small", "lzma2", 2, ["F", "P", "X"], {}, "tour"),
+              ("w-exact", "lzma2", 2, ["F", "F", "X"], {}, "rand"),
+              ("w-exact-lzip", "lzip", 2, ["F", "F", "X"], {}, "tour"),
+              ("w-flush-finish", "lzip", 2, ["F", "P", "f", "X"], {}, "rand"),
+              ("w-backlog-1w", "lzip", 1, ["F", "F", "F", "X"], {}, "rand"),
+              ("w-backlog-1w-lzma2", "lzma2", 1, ["F", "F", "F", "X"], {}, "rand")]
         if not quick:
             R += [("w-panic2-3w", "lzip", 3, ["F", "F", "F", "X"], dict(panic=[2]), "rand")]
     elif drop:
@@ -30,6 +36,9 @@ def rows(quick, fault, drop):
               ("w-drop-partial", "lzip", 2, ["F", "P", "D"], {}, "tour"),
               ("w-drop-after-flush", "lzip", 2, ["F", "f", "D"], {}, "rand"),
               ("w-finish", "lzma2", 2, ["F", "F", "X"], {}, "rand"),
+              ("w-finish-lzip", "lzip", 2, ["F", "F", "X"], {}, "rand"),
+              ("w-finish-backlog-1w", "lzip", 1, ["F", "F", "F", "X"], {}, "rand"),
+              ("w-flush-finish", "lzma2", 2, ["F", "f", "X"], {}, "rand"),
               ("w-finish-empty", "lzip", 2, ["X"], {}, "tour"),
               ("w-1worker", "lzma2", 1, ["F", "F", "F", "X"], {}, "rand"),
               # workers idle, one more unit pushed, then dropped at once
